@@ -1213,6 +1213,23 @@ def gen_stream_history(rng, pool, n_msgs):
     return ops
 
 
+def gen_query_stream(rng, pool, n_msgs):
+    """The tightest loop: one Decoder, one querent, ONE path expression; the members of one family are decoded, queried and
+    dropped in turn, nothing else is allocated in between - so that the message objects themselves (not only their
+    descriptors) come back at the addresses of their dead predecessors."""
+    f = rng.choice(pool['xv'])
+    ms = list(f['msgs'])
+    p = rng.choice(COMMON + pool['paths'].get(ms[0], [])[:2])
+    c = rng.choice([None, 50])
+    ops = []
+    for i in range(n_msgs):
+        m = ms[i % len(ms)] if rng.random() < 0.8 else rng.choice(ms)
+        ops.append({'k': 'proc', 'src': 'dec', 'c': c, 'm': m, 'wire': True})
+        ops.append({'k': 'view', 'src': 'dec', 'c': c, 'm': m, 'v': ['q', p] if rng.random() < 0.9 else ['md', MD_EXPRS[0]], 'ro': 0})
+        ops.append({'k': 'drop'})
+    return ops
+
+
 def bundled_versions():
     d = os.path.join(core.REPO, 'pybufrkit', 'tables', '0', '0_0')
     return sorted(int(x) for x in os.listdir(d) if x.isdigit())
@@ -1529,6 +1546,8 @@ def run(ctx):
         for i in range(ns if gpool['xv'] else 0):
             hists.append((srng.choice([1, 1, 2, 50]), gen_stream_history(srng, gpool, srng.randint(12, 40))))
             kinds.append('stream')
+            hists.append((srng.choice([1, 3, 50]), gen_query_stream(srng, gpool, srng.randint(24, 48))))
+            kinds.append('query-stream')
         logged = evaluate_histories(ctx, mp, pool_path, pool, hists, kinds)
     ctx.count('corpus:histories', ncorpus)
     # the logged cache traffic of the histories against the model
